@@ -235,4 +235,191 @@ theorem cfRound_sub {F p eb sm lg rlo rhi} (LL : LemLayout F p eb sm lg rlo rhi)
       have := ext_of_fields F (p - 1) (p + eb) hms hbits ((x + x % 2) / 2) 0 hlt (by omega) hp64
       simpa using this
 
+/-- the value link for a negative decimal exponent: with `L + A = a + e + k` the half-to-even quotient of
+`w·2^a` by `2^A·5^e`, encoded at exponent field `k`, is `roundNE (w / 10^e)` -/
+theorem roundNE_neg_link {f : Fmt} (hf : WF f) (w e k a A : Nat) (heq : L f + A = a + e + k)
+    (h1 : 0 < k → 2 ^ (f.p - 1) ≤ rhe (w * 2 ^ a) (2 ^ A * 5 ^ e))
+    (h2 : rhe (w * 2 ^ a) (2 ^ A * 5 ^ e) ≤ 2 * 2 ^ (f.p - 1))
+    (hA : 0 < k → 2 ^ A * 5 ^ e * 2 ^ (f.p - 1) ≤ w * 2 ^ a) :
+    roundNE f w (10 ^ e) = encode f k (rhe (w * 2 ^ a) (2 ^ A * 5 ^ e)) := by
+  have h10 : 0 < 10 ^ e := Nat.pow_pos (by decide)
+  rw [← roundNE_scale' hf (Nat.two_pow_pos (a - L f)) w h10]
+  apply roundNE_of_scaled hf (Nat.ne_of_gt (Nat.mul_pos (Nat.two_pow_pos _) h10)) k _ _ (2 ^ (L f - a))
+    (Nat.two_pow_pos _) (Nat.mul_pos (Nat.two_pow_pos _) (Nat.pow_pos (by decide))) ?_ ?_ h1 h2 hA
+  · have : 2 ^ (a - L f) * 2 ^ L f = 2 ^ a * 2 ^ (L f - a) := by
+      rw [← Nat.pow_add, ← Nat.pow_add]; refine two_pow_congr ?_; omega
+    calc 2 ^ (a - L f) * w * 2 ^ L f = w * (2 ^ (a - L f) * 2 ^ L f) := by ring
+      _ = w * (2 ^ a * 2 ^ (L f - a)) := by rw [this]
+      _ = w * 2 ^ a * 2 ^ (L f - a) := by ring
+  · have : 2 ^ (a - L f) * 2 ^ e * 2 ^ k = 2 ^ A * 2 ^ (L f - a) := by
+      rw [← Nat.pow_add, ← Nat.pow_add, ← Nat.pow_add]; refine two_pow_congr ?_; omega
+    calc 2 ^ (a - L f) * 10 ^ e * 2 ^ k = 2 ^ (a - L f) * (5 ^ e * 2 ^ e) * 2 ^ k := by
+          rw [show (10 : Nat) ^ e = 5 ^ e * 2 ^ e by rw [← Nat.mul_pow]]
+      _ = 5 ^ e * (2 ^ (a - L f) * 2 ^ e * 2 ^ k) := by ring
+      _ = 5 ^ e * (2 ^ A * 2 ^ (L f - a)) := by rw [this]
+      _ = 2 ^ A * 5 ^ e * 2 ^ (L f - a) := by ring
+
+/-- no exact tie when the denominator carries a power of five that cannot divide a `u64` -/
+theorem no_tie_of_big5 (e wn s Dq : Nat) (h28 : 28 ≤ e) (hwn0 : 0 < wn) (hwn2 : wn < 2 ^ 64) (hdvd : 5 ^ e ∣ Dq) :
+    ¬ (wn * 2 ^ s) % Dq = 0 := by
+  intro h
+  have h1 : Dq ∣ wn * 2 ^ s := Nat.dvd_of_mod_eq_zero h
+  have h2 : 5 ^ e ∣ wn * 2 ^ s := Nat.dvd_trans hdvd h1
+  have hcop : Nat.Coprime (5 ^ e) (2 ^ s) := Nat.Coprime.pow e s (by decide)
+  have h3 : 5 ^ e ≤ wn := Nat.le_of_dvd hwn0 (hcop.dvd_of_dvd_mul_right h2)
+  have h5big : 2 ^ 64 < 5 ^ e := by
+    calc 2 ^ 64 < 5 ^ 28 := by decide
+      _ ≤ 5 ^ e := Nat.pow_le_pow_right (by decide) h28
+  omega
+
+theorem en_neg_normal (e b u lz bias sh p Lf En : Nat) (hshv : u + 62 - p = sh) (hL : Lf = bias + (p - 1) - 1)
+    (hu : u ≤ 1) (hp : 2 ≤ p) (hp61 : p ≤ 61) (hL127 : 127 ≤ bias + (p - 1) - 1)
+    (hpw : (63 : Int) - e - b + u - lz + bias = ((En + 1 : Nat) : Int)) :
+    Lf + (sh + 129) = lz + (b + 127) + e + En := by omega
+
+theorem en_neg_sub (e b u lz bias sh p Lf t : Nat) (hshv : u + 62 - p = sh) (hL : Lf = bias + (p - 1) - 1)
+    (hu : u ≤ 1) (hp : 2 ≤ p) (hp61 : p ≤ 61) (hL127 : 127 ≤ bias + (p - 1) - 1)
+    (hpw : (63 : Int) - e - b + u - lz + bias = 1 - (t : Int)) :
+    Lf + (sh + 129 + t) = lz + (b + 127) + e + 0 := by omega
+
+theorem dpow_normal (sh e : Nat) : 2 ^ sh * 2 ^ 64 * (2 ^ 64 * 5 ^ e) * 2 = 2 ^ (sh + 129) * 5 ^ e := by
+  rw [Nat.pow_add]; ring
+
+theorem dpow_sub (sh e t : Nat) : 2 ^ sh * 2 ^ 64 * (2 ^ 64 * 5 ^ e) * 2 ^ t * 2 = 2 ^ (sh + 129 + t) * 5 ^ e := by
+  rw [Nat.pow_add, Nat.pow_add]; ring
+
+/-- **`compute_float` on the reciprocal rows truncated down**, `SMALLEST_POWER_OF_TEN ≤ −e ≤ −28`: it answers, and a
+valid answer — normal, subnormal or zero — is `roundNE (w / 10^e)`. -/
+theorem computeFloat_trunc_neg {F p eb sm lg rlo rhi} (LL : LemLayout F p eb sm lg rlo rhi) (hrlo : rlo < 28)
+    (e : Nat) (h28 : 28 ≤ e) (hesm : e ≤ sm) (w : Nat) (hw0 : w ≠ 0) (hw : w < 2 ^ 64) :
+    ∃ fp, computeFloat F (-(e : Int)) w false = .ok fp ∧
+      (0 ≤ fp.exp → extendedToFloat F fp = roundNE F.fmt w (10 ^ e)) := by
+  have lay := LL.lay
+  have hf := lay.wf
+  have hp := lay.hp; have hp64 := lay.hp64; have heb := lay.heb
+  have hms := lay.msNat
+  have hfp : F.fmt.p = p := by rw [lay.fmt]
+  have hp61 : p ≤ 61 := by
+    have h1 := lay.hpb
+    have : eb ≠ 2 := by intro h; subst h; omega
+    omega
+  have hsm342 := LL.sm342
+  obtain ⟨hi5, lo5, hrow, hhi5, hlo5, hhi5n, hb66, hTlo, hThi, hpow, hb795⟩ := rows_neg e h28 (by omega)
+  obtain ⟨hlz, hwn1, hwn2, hshl⟩ := clz_norm hw0 hw
+  have hidx : (-(e : Int) + 342).toNat = 342 - e := by omega
+  have hprec : F.ms + litPrecisionExtra = p + 2 := by rw [hms]; show p - 1 + 3 = p + 2; omega
+  obtain ⟨lo, hi, hcpa, hlo, hhi, hzlow, hzup⟩ := cpa_bounds (-(e : Int)) (by omega) (by omega) hi5 lo5
+    (by rw [hidx]; exact hrow) hhi5 hlo5 (w * 2 ^ clz64 w) (F.ms + litPrecisionExtra) (by rw [hprec]; omega) hwn2
+  unfold computeFloat
+  rw [if_neg (by intro h; rcases h with h | h; exact hw0 h; rw [LL.smallest] at h; omega),
+    if_neg (by rw [LL.largest]; omega)]
+  simp only [hshl, hcpa]
+  generalize hlzv : clz64 w = lz at *
+  generalize hb5 : bitlen (5 ^ e) = b at *
+  have hAll : litAllOnes = 2 ^ 64 - 1 := by decide
+  have hunsafe : (decide (litSafeLo ≤ -(e : Int)) && decide (-(e : Int) ≤ litSafeHi)) = false := by
+    have h1 : decide (litSafeLo ≤ -(e : Int)) = false := by
+      unfold litSafeLo; simp only [decide_eq_false_iff_not]; omega
+    rw [h1]; simp
+  rw [hunsafe]
+  by_cases hl : lo = litAllOnes
+  · -- the fall-back: an invalid-marked answer
+    have hc : (!false && lo == litAllOnes && !false) = true := by rw [hl]; simp
+    rw [if_pos hc]
+    refine ⟨_, rfl, fun hv => ?_⟩
+    have := computeErrorScaled_neg lay (-(e : Int)) hi lz (by rw [hpow]; omega)
+    omega
+  · have hc : (!false && lo == litAllOnes && !false) = false := by
+      have : (lo == litAllOnes) = false := by simp [hl]
+      rw [this]; simp
+    rw [hc]
+    simp only [Bool.false_eq_true, if_false]
+    have hlo2 : lo + 2 ≤ 2 ^ 64 := by rw [hAll] at hl; omega
+    have hwn0 : 0 < w * 2 ^ lz := by have := Nat.two_pow_pos 63; omega
+    have h5pos : 0 < 5 ^ e := Nat.pow_pos (by decide)
+    have hNlo : w * 2 ^ lz * (hi5 * 2 ^ 64 + lo5) * 5 ^ e ≤ w * 2 ^ lz * 2 ^ (b + 127) := by
+      rw [Nat.mul_assoc]; exact Nat.mul_le_mul_left _ hTlo
+    have hNhi : w * 2 ^ lz * 2 ^ (b + 127) < (w * 2 ^ lz * (hi5 * 2 ^ 64 + lo5) + w * 2 ^ lz) * 5 ^ e := by
+      calc w * 2 ^ lz * 2 ^ (b + 127) < w * 2 ^ lz * ((hi5 * 2 ^ 64 + lo5 + 1) * 5 ^ e) :=
+            Nat.mul_lt_mul_of_pos_left hThi hwn0
+        _ = (w * 2 ^ lz * (hi5 * 2 ^ 64 + lo5) + w * 2 ^ lz) * 5 ^ e := by ring
+    generalize hu : hi / 2 ^ 63 = u
+    generalize hshv : u + 62 - p = sh
+    have hmb : 64 - (F.ms + litPrecisionExtra) = 62 - p := by rw [hprec]; omega
+    rw [hmb] at hzup
+    obtain ⟨hhi62, hquot⟩ := upper_bits_lower hp61 (w * 2 ^ lz) hi5 lo5 lo hi (w * 2 ^ lz * 2 ^ (b + 127)) (5 ^ e)
+      hwn1 hwn2 hhi5n hlo hhi hzlow hzup h5pos hNlo hNhi (Or.inl hlo2) u sh hu hshv
+    have hu01 : u ≤ 1 := by
+      rw [← hu]
+      have : hi / 2 ^ 63 < 2 := by
+        rw [Nat.div_lt_iff_lt_mul (Nat.two_pow_pos _)]; omega
+      omega
+    have hB := Nat.two_pow_pos 64
+    have hDpos : 0 < 2 ^ sh * 2 ^ 64 * (2 ^ 64 * 5 ^ e) :=
+      Nat.mul_pos (Nat.mul_pos (Nat.two_pow_pos _) hB) (Nat.mul_pos hB h5pos)
+    have hdvd : 5 ^ e ∣ 2 ^ sh * 2 ^ 64 * (2 ^ 64 * 5 ^ e) := ⟨2 ^ sh * 2 ^ 64 * 2 ^ 64, by ring⟩
+    have hNw : w * 2 ^ lz * 2 ^ (b + 127) = w * 2 ^ (lz + (b + 127)) := by
+      rw [Nat.pow_add 2 lz, Nat.mul_assoc]
+    have hL := L_eq lay
+    have hL127 := lay.hL127
+    have hbias := lay.bias
+    have hpwv : power (wrapI32 (-(e : Int))) + (u : Int) - (lz : Int) - F.C.minimumExponent =
+        (63 : Int) - e - b + u - lz + ((2 ^ (eb - 1) - 1 : Nat) : Int) := by
+      rw [hpow, LL.minimum]; omega
+    by_cases hnormal : (1 : Int) ≤ (63 : Int) - e - b + u - lz + ((2 ^ (eb - 1) - 1 : Nat) : Int)
+    · -- normal result
+      obtain ⟨En, hEn⟩ : ∃ En : Nat, (63 : Int) - e - b + u - lz + ((2 ^ (eb - 1) - 1 : Nat) : Int) = ((En + 1 : Nat) : Int) :=
+        ⟨((63 : Int) - e - b + u - lz + ((2 ^ (eb - 1) - 1 : Nat) : Int) - 1).toNat, by omega⟩
+      have htie : ((decide (lo ≤ litTieLo) && decide (-(e : Int) ≥ F.C.minExponentRoundToEven) &&
+          decide (-(e : Int) ≤ F.C.maxExponentRoundToEven) &&
+          (hi / 2 ^ sh % (litTieMask + 1) == litTieVal) &&
+          (shl64 (hi / 2 ^ sh) sh == hi)) = true) ↔
+          (w * 2 ^ lz * 2 ^ (b + 127) % (2 ^ sh * 2 ^ 64 * (2 ^ 64 * 5 ^ e)) = 0 ∧
+            w * 2 ^ lz * 2 ^ (b + 127) / (2 ^ sh * 2 ^ 64 * (2 ^ 64 * 5 ^ e)) % 4 = 1) := by
+        have hLo : decide (-(e : Int) ≥ F.C.minExponentRoundToEven) = false := by
+          rw [LL.minRTE]; simp only [decide_eq_false_iff_not]; omega
+        rw [hLo]
+        simp only [Bool.and_false, Bool.false_and, Bool.false_eq_true, false_iff, not_and]
+        intro hmod0 _
+        exact no_tie_of_big5 e (w * 2 ^ lz) (b + 127) _ h28 hwn0 hwn2 hdvd hmod0
+      obtain ⟨fp, hfp1, hfp2, hfp3, hq0lo, hq0hi, hm0lo⟩ := cfRound_of_quot LL (-(e : Int)) lo hi lz hhi hhi62 u sh
+        hu hshv (w * 2 ^ lz * 2 ^ (b + 127)) (2 ^ sh * 2 ^ 64 * (2 ^ 64 * 5 ^ e)) En hDpos hquot.symm htie
+        (by rw [hpwv, hEn])
+      refine ⟨fp, hfp1, fun _ => ?_⟩
+      rw [hfp3, dpow_normal, hNw]
+      rw [dpow_normal, hNw] at hq0lo hq0hi
+      symm
+      apply roundNE_neg_link hf w e En (lz + (b + 127)) (sh + 129)
+        (en_neg_normal e b u lz (2 ^ (eb - 1) - 1) sh p (L F.fmt) En hshv hL hu01 hp hp61 hL127 hEn)
+      · intro _; rw [hfp]; exact hq0lo
+      · rw [hfp]; exact hq0hi
+      · intro _
+        rw [hfp, ← hNw, ← dpow_normal]
+        have hdm := Nat.div_add_mod (w * 2 ^ lz * 2 ^ (b + 127)) (2 ^ sh * 2 ^ 64 * (2 ^ 64 * 5 ^ e))
+        have hTT : 2 ^ p = 2 * 2 ^ (p - 1) := two_pow_pred (by omega)
+        calc 2 ^ sh * 2 ^ 64 * (2 ^ 64 * 5 ^ e) * 2 * 2 ^ (p - 1)
+            = 2 ^ sh * 2 ^ 64 * (2 ^ 64 * 5 ^ e) * 2 ^ p := by rw [hTT]; ring
+          _ ≤ 2 ^ sh * 2 ^ 64 * (2 ^ 64 * 5 ^ e) *
+              (w * 2 ^ lz * 2 ^ (b + 127) / (2 ^ sh * 2 ^ 64 * (2 ^ 64 * 5 ^ e))) :=
+            Nat.mul_le_mul_left _ (by rw [hquot]; exact hm0lo)
+          _ ≤ w * 2 ^ lz * 2 ^ (b + 127) := by omega
+    · -- subnormal result (or zero)
+      obtain ⟨t, ht⟩ : ∃ t : Nat, (63 : Int) - e - b + u - lz + ((2 ^ (eb - 1) - 1 : Nat) : Int) = 1 - (t : Int) :=
+        ⟨(1 - ((63 : Int) - e - b + u - lz + ((2 ^ (eb - 1) - 1 : Nat) : Int))).toNat, by omega⟩
+      have ht1 : 1 ≤ t := by omega
+      have hdvd2 : 5 ^ e ∣ 2 ^ sh * 2 ^ 64 * (2 ^ 64 * 5 ^ e) * 2 ^ t := Dvd.dvd.mul_right hdvd _
+      obtain ⟨fp, hfp1, hfp2, hfp3, hq0le⟩ := cfRound_sub LL (-(e : Int)) lo hi lz hhi hhi62 u sh hu hshv
+        (w * 2 ^ lz * 2 ^ (b + 127)) (2 ^ sh * 2 ^ 64 * (2 ^ 64 * 5 ^ e)) t hDpos hquot.symm ht1
+        (fun h => no_tie_of_big5 e (w * 2 ^ lz) (b + 127) _ h28 hwn0 hwn2 hdvd2 h.1)
+        (by rw [hpwv, ht])
+      refine ⟨fp, hfp1, fun _ => ?_⟩
+      rw [hfp3, dpow_sub, hNw]
+      rw [dpow_sub, hNw] at hq0le
+      symm
+      apply roundNE_neg_link hf w e 0 (lz + (b + 127)) (sh + 129 + t)
+        (en_neg_sub e b u lz (2 ^ (eb - 1) - 1) sh p (L F.fmt) t hshv hL hu01 hp hp61 hL127 ht)
+      · intro h; exact absurd h (Nat.lt_irrefl 0)
+      · rw [hfp]; have := Nat.two_pow_pos (p - 1); omega
+      · intro h; exact absurd h (Nat.lt_irrefl 0)
+
 end LexVerif.Proof.Lemire
